@@ -47,7 +47,8 @@ MANIFEST = {
             'list (what a further thread arriving at that moment would '
             'render), and a template that was completely compiled never '
             'loses that state again.  Every thread must obtain exactly its '
-            'sequential result.',
+            'sequential result.  Per-thread inputs differ in value and, for '
+            'the loop templates, in kind (strings / objects / pairs).',
     'note': 'Trusted: dtmc/sched.py (baton scheduler; replay of a schedule '
             'must reproduce the same point sequence or the run is a harness '
             'fault).  Reduction, checked in every execution: frames of '
